@@ -73,6 +73,7 @@ def main(run):
     thorough = run.tier == "thorough"
     run.prove(["C03/Property.v"])
     cases, metas = [], []
+    ecases, emetas = [], []
     stats = dict(pinhole=0, slit_length=0, slit_width=0, slit_mixed=0, zero_width=0, two_d=0, user_qcalc=0, direct_model=0)
     evals, distinct = 0, set()
     for gname, q in grids(rng, thorough):
@@ -101,6 +102,21 @@ def main(run):
             except Exception as exc:  # noqa
                 run.add(Finding("C03:pinhole:construct", "Pinhole1D(%s grid, %s width) raised %r" % (gname, wname, exc), desc))
                 continue
+            # the default grid itself against the Coq model of pinhole_extend_q / linear_extrapolation / cut / abs
+            if len(q) >= 2 and len(res.q_calc) <= 400:
+                from sasmodels import resolution as _R
+                order = np.argsort(q, kind="stable")
+                qs_, ws_ = q[order], np.asarray(dq, "d")[order]
+                nlo_, nhi_ = _R.PINHOLE_N_SIGMA
+                qmin_, qmax_ = np.min(q - nlo_ * dq), np.max(q + nhi_ * dq)
+                d_lo, d_hi = qs_[1] - qs_[0], qs_[-1] - qs_[-2]
+                n_low = int(np.ceil((qs_[0] - qmin_) / d_lo)) if d_lo > 0 else 15
+                n_high = int(np.ceil((qmax_ - qs_[-1]) / d_hi)) if d_hi > 0 else 15
+                if 1 <= n_low <= 300 and 1 <= n_high <= 300:
+                    ecases.append("(MkECase %s %s %s %s %s %d%%nat %d%%nat %s %s)" % (
+                        flist(qs_), flist(ws_), fhex(nlo_), fhex(nhi_), fhex(2 * _R.MINIMUM_RESOLUTION), n_low, n_high,
+                        fhex(_R.MINIMUM_ABSOLUTE_Q * np.min(q)), flist(res.q_calc)))
+                    emetas.append(dict(desc, n_low=n_low, n_high=n_high, q_calc=list(map(float, res.q_calc))))
             if check_matrix(run, "pinhole %s/%s" % (gname, wname), res, q, desc, window=(q - 2.5 * dq, q + 3.0 * dq), sum_tol=1e-12):
                 distinct.add(("pinhole", gname, wname, len(q)))
                 # the weights are built on the signed grid (points beyond the beam stop are negative) and q_calc is
@@ -273,6 +289,21 @@ def main(run):
                 m = metas[si * N + idx]
                 run.add(Finding("C03:corr:%s" % m["kind"], "%s weights for data point %d of the %s grid differ from the Coq model" % (m["kind"], m["point"], m["grid"]),
                                 {k: v for k, v in m.items()}))
+    if ecases and not run.proof_broken():
+        stats["default_grids_vs_model"] = len(ecases)
+        shards = []
+        N = 25
+        for i in range(0, len(ecases), N):
+            shards.append("From Coq Require Import List PrimFloat.\nImport ListNotations.\nFrom SM Require Import Base.Num C03.Model C03.Exec.\n"
+                          "Definition cases : list ECase := [\n%s\n].\nEval vm_compute in (check_ecases %s cases).\n" % (";\n".join(ecases[i:i + N]), fhex(1e-13)))
+        for si, (rc, vals, err) in enumerate(common.run_coq_shards(shards, run.scratch.sub("coqe"), prefix="c03e", jobs=12)):
+            if rc != 0 or not vals:
+                run.add(Finding("corr:C03:coq", "correspondence shard (default grid) failed: %s" % err[-300:], {"correspondence": "C03.Exec.check_ecases", "stderr": err[-1500:]}, no_input=True))
+                continue
+            traces += min(N, len(ecases) - si * N)
+            for idx in vals[0]:
+                m = emetas[si * N + idx]
+                run.add(Finding("C03:corr:qcalc", "the default q_calc of Pinhole1D on the %s grid differs from the Coq model of pinhole_extend_q / linear_extrapolation / low-q cut" % m["grid"], m))
     run.coverage.update(evaluations=evals, distinct_nontrivial=len(distinct), traces_validated_against_impl=traces, input_distribution=stats)
     run.assumptions += ["erf at the bin edges is a leaf supplied by the harness (scipy.special.erf, as in the implementation)",
                         "coverage is checked with one calculation-grid step of slack at either end"]
